@@ -354,3 +354,15 @@ package promapi
 //@   at call Digest.WriteString#2 assert arg0 == d && arg1 == "\n"
 //@   at call Digest.Sum64 assert arg0 == d
 //@   loop 1 invariant 0 <= iter1 && iter1 <= len(s)
+
+// C15 (what counts as unavailability): a 5xx answer is a server error - the next upstream is tried and checks report a
+// warning - unless its JSON body names a query-level error type (bad_data, execution, canceled, timeout, ...).
+// Proved: a 5xx answer whose body cannot be decoded is a server_error. KNOWN FINDING (second clause): a 5xx answer
+// with a decodable body whose errorType is missing or not one pint knows ("internal" - what Prometheus sends with a
+// 500 - or "unavailable") is classified `unknown`, which is not an unavailability; the existing suite pins this
+// (cmd/pint/tests/0170: a 500 with an empty JSON object must print "unknown: "), so it is recorded, not repaired.
+//@ func tryDecodingAPIError [C15]
+//@   ghost derr error
+//@   after call Stream set derr = result0
+//@   ensures resp.StatusCode / 100 == 5 && derr != nil && dyn(result, APIError) ==> unbox(result, APIError).ErrorType == v1.ErrServer
+//@   ensures resp.StatusCode / 100 == 5 && derr == nil && dyn(result, APIError) ==> unbox(result, APIError).ErrorType != ErrUnknown
